@@ -109,6 +109,8 @@ func cmdList(args []string) {
 }
 
 // verifyFunc builds the VC of one function under its contract.
+var assumedMu sync.Mutex
+
 func (eng *Engine) verifyFunc(fn *ssa.Function) (res *FuncResult) {
 	name := shortPkg(eng.pkgPathOf(fn)) + "." + funcKey(fn)
 	res = &FuncResult{Fn: name, Pkg: eng.pkgPathOf(fn), Key: funcKey(fn), Status: "ok"}
@@ -173,6 +175,15 @@ func (eng *Engine) verifyFunc(fn *ssa.Function) (res *FuncResult) {
 		env.evalLets(c, false)
 		for _, cl := range c.byKind("requires") {
 			vc.assume(env.boolOf(cl.Expr))
+		}
+		// assumes: an unproved representation invariant, assumed at entry of
+		// the function under verification, never checked at call sites and
+		// listed in the evidence as an unchecked assumption
+		for _, cl := range c.byKind("assumes") {
+			vc.assume(env.boolOf(cl.Expr))
+			assumedMu.Lock()
+			eng.assumedInv[shortPkg(eng.pkgPathOf(fn))+"."+funcKey(fn)+": "+cl.Label+" "+cl.Src] = true
+			assumedMu.Unlock()
 		}
 		vc.topFn, vc.topContract = fn, c
 		if decs := funcDecreases(c); len(decs) > 0 {
